@@ -65,7 +65,7 @@ chk('C19', MC,
     'transpile_to_c / codegen_compile as wholes (module paths, hash order, uninitialised scratch memory there) are NOT decided.',
     'CBMC self-composition (two runs, semantically equal inputs, outputs compared)', 'DESIGN.md 4/C19')
 chk('C20', MC,
-    'CBMC on the real runtime/dyn_array.c: one operation of every accessor/mutator (all element kinds incl. structs) from ANY valid array (symbolic length 0..capacity incl. the full array that must grow, all contents, all indices/values): memory-safe incl. size-arithmetic overflow, invariant preserved, result equals the abstract list operation.',
+    'CBMC on the real runtime/dyn_array.c: one operation of every accessor/mutator (all element kinds incl. structs) from ANY valid array (symbolic length 0..capacity incl. the full array that must grow, all contents, all indices/values): memory-safe incl. size-arithmetic overflow, invariant preserved, result equals the abstract list operation; the same inductive step for the string-builder helpers that nanoc emits into every generated C file (text taken from the real nanoc output).',
     'Inductive single step (covers histories of any length given the invariant). gc.c (no verdict), nl_string.c formatting and generated programs are not decided.',
     'CBMC bounded model checking, inductive step over the dyn_array representation invariant', 'DESIGN.md 4/C20')
 NA = {
